@@ -215,3 +215,55 @@ def replay_magic_step(kind_i, a1, a2, a3, in_cell, outer_italic):
     except Exception as e:  # noqa: BLE001
         bad, what = True, f"parse() raises {type(e).__name__}: {e}"
     return ("parse(" + repr(doc) + ")", bad, what)
+
+
+# ---------------------------------------------------------------- link trail: text arriving after a closed link
+def link_trail_step(has_trail: bool, tok: str, tok2: str) -> bool:
+    """text_fn with a closed LINK as the last child of the open node: word characters that directly follow a link are
+    moved into the link's children (the link trail).  Whatever arrives - one token or two tokens in a row (a silently
+    dropped tag may sit between them) - the link keeps at most ONE string child (no two adjacent strings: closed nodes are
+    never merged again), no character is lost and the order is kept."""
+    ctx.start_page("T")
+    root = WikiNode(NodeKind.ROOT, 0)
+    ctx.parser_stack = [root]
+    ctx.pre_parse = False
+    ctx.suppress_special = False
+    ctx.beginning_of_line = False
+    ctx.wsp_beginning_of_line = False
+    reset_begline(ctx)
+    link = WikiNode(NodeKind.LINK, 0)
+    link.largs = [["dog"]]
+    if has_trail:
+        link.children.append("s")
+    root.children.append("x")
+    root.children.append(link)
+    text_fn(ctx, tok)
+    if tok2:
+        text_fn(ctx, tok2)
+    lk = link.children
+    if not all(isinstance(k, str) for k in lk) or len(lk) > 1:
+        return False
+    after = root.children[2:]
+    if not all(isinstance(k, str) for k in after):
+        return False
+    return "".join(lk) + "".join(after) == ("s" if has_trail else "") + tok + tok2
+
+
+def replay_link_trail(has_trail, tok, tok2):
+    w = Wtp(quiet=True, quiet_output=True)
+    w.start_page("T")
+    doc = "x[[dog]]" + ("s<noinclude/>" if has_trail else "") + tok + ("<noinclude/>" + tok2 if tok2 else "")
+    root = w.parse(doc)
+    bad = []
+
+    def walk(n):
+        if isinstance(n, WikiNode):
+            ks = n.children
+            for a, b in zip(ks, ks[1:]):
+                if isinstance(a, str) and isinstance(b, str):
+                    bad.append((n.kind.name, ks))
+            for c in ks:
+                walk(c)
+
+    walk(root)
+    return ("parse(" + repr(doc) + ")", bool(bad), f"two adjacent strings in the children of a node: {bad[:2]}")
